@@ -107,10 +107,12 @@ class C19(Engine):
     thorough_budget = 600
     variants = ("small",)
     rule = ("run i = one forked naken_util lifetime (real main(), scripted console) on a CPU with 1/2/4/8 bytes per address and either "
-            "byte order: optional load of a seeded bin/hex image (with -address/-set_pc), then 8-40 commands write/write16/write32 "
+            "byte order: optional load of a seeded bin/hex/ti-txt image (with -address/-set_pc) or of an ELF from the real assembler with exported labels "
+            "(also in the other byte order than the CPU's default), then 8-40 commands write/write16/write32 "
             "(1-20 values, decimal / 0x / h-suffix / negative spellings, aligned and - on alignment-1 CPUs - unaligned), "
             "print/print16/print32 over padded ranges in the forms a-b, a, a-, asm blocks of corpus instructions with known encodings, "
-            "set pc + step over a load-immediate placed with write, and malformed commands that must be rejected; checked against a "
+            "ranges and write addresses by symbol name, a second .org inside an asm block with a write into the gap, set pc + step over a "
+            "load-immediate, a load from memory or a store placed with write (12 simulators), run into a breakpoint, and malformed commands that must be rejected; checked against a "
             "reference byte map after every print and by a final sweep over every touched 256-byte block and its neighbours. "
             "Distinct = distinct seam-event hash; non-trivial = at least two state-changing commands shared the image before an observation.")
     assumptions = ["range-end inclusiveness is not assumed: only printed lines are compared and ranges are padded",
